@@ -36,6 +36,18 @@ CHECKS = {
         "paths must equal the set TLC computes from Partition.tla.",
    note="sub-group members get equal times/depth; chained priorities read as lexicographic; only `remove` is used to observe the partition (the other operations share it)",
    tech="TLC-evaluated declarative spec as oracle + randomized replay on the real binary"),
+ "C02": dict(cat="model_checking", sec="5 C02",
+   text="The C02 statements (ContentKept, ReplicasUntouched with sub-groups from Partition.tla, OutsideUntouched, LinkOpsPreserveReads, MoveKeepsBytes) are TLA+ predicates "
+        "(DedupeObs.tla) evaluated by TLC on complete inventories observed before/after real `group | <op>` pipelines over seeded random trees: several groups, hard-link sets, "
+        "relative/absolute symlinks reported with -S, --isolate, --match-links, hostile file names with decoys, text and JSON reports, five operations, pre-populated move targets.",
+   note="content identity = SHA-256; the dangerous -H -S combination is not generated; reflink runs natively (fails, must change nothing)",
+   tech="TLC-evaluated property predicates on observed inventories of randomized real runs"),
+ "C11": dict(cat="model_checking", sec="5 C11",
+   text="LogScript.tla models the parallel producers / priority-queue printer of --dry-run and is checked by TLC for every producer schedule (order = report order, every group printed; a "
+        "skipped index provably stalls it). On the real binary: for each scenario of the C02 generator and for 70-group trees with 1/2/16 threads the dry run is taken on the same tree "
+        "before the real run (tree must stay unchanged), summaries are compared, and for remove/link the printed script is executed by bash on a restored copy and the final trees compared.",
+   note="trees equal up to inode numbering and temp names; comparisons skipped when a command of the real run failed",
+   tech="TLC model checking of the printer + metamorphic replay (dry-run script through bash vs real run)"),
 }
 
 def main():
